@@ -157,6 +157,12 @@ class SymOps:
         zs = [{"int": z3.IntSort(), "bool": z3.BoolSort(), "real": z3.RealSort()}.get(s, s) for s in sorts]
         return z3.Function(name, *zs)
 
+    def is_slice(self, view, of, lo, n):
+        """``view`` is the slice ``of[lo:lo+n]`` (a view on the same rows, no copy)."""
+        if view.base != of.base:
+            return z3.BoolVal(False)
+        return z3.And(view.n == n, z3.Or(n == 0, view.lo == of.lo + lo))
+
     true = property(lambda self: z3.BoolVal(True))
     false = property(lambda self: z3.BoolVal(False))
 
@@ -218,6 +224,14 @@ class ConcOps:
     exists_val = exists
     true = True
     false = False
+
+    def is_slice(self, view, of, lo, n):
+        import numpy as np
+        lo, n = int(lo), int(n)
+        if view.n != n:
+            return False
+        want = of.arr[lo:lo + n]
+        return bool(view.arr.dtype == want.dtype and view.arr.tobytes() == want.tobytes())
 
 
 def _flat(xs):
